@@ -25,14 +25,17 @@ from . import observe as O
 DECOYS = ('k', '5', ' ', '\n')
 
 
-def uni_for(term, ci=False):
+def uni_for(term, ci=False, deep=False):
     cps = B.chars_of(term)
     chars = {chr(c) for c in cps}
     if ci:
         chars |= {c.swapcase() for c in chars if c.isalpha() and len(c.swapcase()) == 1}
     core = chars if chars else {'k'}
-    core_len = 5 if len(core) <= 3 else 4
-    return O.universe(chars, DECOYS, 3, core, core_len)
+    if deep:
+        core_len = 8 if len(core) <= 2 else 6 if len(core) == 3 else 4
+    else:
+        core_len = 5 if len(core) <= 3 else 4 if len(core) <= 5 else 3
+    return O.universe(chars, DECOYS, 3 if len(chars) <= 6 else 2, core, core_len)
 
 
 def nontrivial(prop, st):
@@ -56,7 +59,7 @@ def nontrivial(prop, st):
     return st['d'] > 0
 
 
-def observe_case(term, sp, res):
+def observe_case(term, sp, res, deep=False):
     """Execute one (term, spelling); return (facet failures list, info)."""
     fails = []
     info = {}
@@ -91,7 +94,14 @@ def observe_case(term, sp, res):
     if not res['refsdef']:
         return fails, info
     ci = '(?i:' in res['ref']
-    uni = uni_for(term, ci)
+    uni = uni_for(term, ci, deep)
+    try:
+        tr = O.table(res['ref'], uni)
+    except re.error:
+        # the reference text itself is not a valid regex (a back-reference placed before or
+        # inside its own group): no verdict on behaviour for this term
+        info['outcome'] = 'ok-ref-uncompilable'
+        return fails, info
     try:
         te = O.table(emitted, uni)
     except re.error as e:
@@ -100,7 +110,6 @@ def observe_case(term, sp, res):
     except RecursionError:
         fails.append(('compile', {'emitted': emitted, 'error': 'RecursionError in re'}))
         return fails, info
-    tr = O.table(res['ref'], uni)
     if te != tr:
         fails.append(('behaviour', dict(O.first_diff(te, tr, uni) or {}, emitted=emitted, reference=res['ref'])))
     names = O.group_names(emitted)
@@ -138,8 +147,13 @@ def judge(payload, params):
                 stats['nontrivial'] += 1
         for sp in B.spellings(term):
             stats['cases'] += 1
-            fails, info = observe_case(term, sp, res)
-            stats['outcome:' + ('ok' if info.get('outcome') == 'ok' else 'raise')] += 1
+            fails, info = observe_case(term, sp, res, params.get('deep', False))
+            only = params.get('only_ex')
+            if only:
+                fails = [(f, d) for f, d in fails if f not in ('exc', 'accepted') or d.get('observed') == only
+                         or only in d.get('expected_ex', ())]
+            oc = info.get('outcome')
+            stats['outcome:' + (oc if oc in ('ok', 'skipped', 'ok-ref-uncompilable') else 'raise')] += 1
             for facet, detail in fails:
                 stats['facet:' + facet] += 1
                 if facet in facets:
